@@ -84,13 +84,15 @@ main(int argc, char **argv)
 		snprintf(url, sizeof(url), "ipc://%s", path);
 	} else if (strcmp(tran, "ws") == 0) {
 		snprintf(url, sizeof(url), "ws://127.0.0.1:0/af");
+	} else if (strcmp(tran, "udp") == 0) {
+		snprintf(url, sizeof(url), "udp://127.0.0.1:0");
 	} else {
 		snprintf(url, sizeof(url), "tcp://127.0.0.1:0");
 	}
 	if (rep_open) {
 		listening = step("listen", nng_listen(rep, url, &l, 0)) == 0;
 	}
-	if (listening && (strcmp(tran, "tcp") == 0 || strcmp(tran, "ws") == 0)) {
+	if (listening && (strcmp(tran, "tcp") == 0 || strcmp(tran, "ws") == 0 || strcmp(tran, "udp") == 0)) {
 		int port = 0;
 		if (step("bound_port", nng_listener_get_int(l, NNG_OPT_BOUND_PORT, &port)) != 0 || port == 0) {
 			listening = false;
